@@ -41,7 +41,7 @@ def run_case(d):
             return name, 'ERROR', 'patch does not apply to /repo HEAD'
         msgs = []
         good = True
-        env = dict(os.environ, VERIF_REPO=wt)
+        env = dict(os.environ, VERIF_REPO=wt, VERIF_EVIDENCE_DIR=wt + '.evidence')
         for e in exp:
             r = sh([os.path.join(HERE, 'check'), e['check'], '--tier', 'quick'], env=env)
             hit = r.returncode == 1 and ('[%s]' % e['rule']) in r.stdout if e.get('rule') else r.returncode == 1
@@ -53,7 +53,8 @@ def run_case(d):
         return name, 'PASS' if good else 'FAIL', '; '.join(msgs)
     finally:
         sh(['git', '-C', '/repo', 'worktree', 'remove', '--force', wt])
-        # evidence of scratch runs must not overwrite the registered evidence
+        import shutil
+        shutil.rmtree(wt + '.evidence', ignore_errors=True)
     return name, 'ERROR', 'unreachable'
 
 
